@@ -196,7 +196,8 @@ func (srv *Server) Close() error {
 	}
 
 	verifHook("close.listeners", srv)
-	close(srv.transportChan)
+	// The transport queue is not closed here, since the accept and consume goroutines may still be
+	// using it: sending to (or receiving from) a closed channel would panic the whole process.
 	return multierr.Combine(errs...)
 }
 
